@@ -303,6 +303,12 @@ func (b *builder) build1(v *Val) interface{} {
 			cause = c
 		}
 		return &ErrWrap{Msg: v.str(in), Cause: cause}
+	case "errwrapv":
+		var cause error
+		if c, ok := b.sub(v, 0).(error); ok {
+			cause = c
+		}
+		return ErrWrapV{Msg: v.str(in), Cause: cause, tags: []string{"t"}}
 	case "errstringer":
 		return ErrStringer{S: v.str(in)}
 	case "gostr":
